@@ -172,29 +172,72 @@ func init() { workers["c17"] = workerC17 }
 // ---- parent side ---------------------------------------------------------------------------------
 
 func buildBigCRL(path string, n int, pem bool, fat bool) error {
+	_, err := buildBigCRLAlphabet(path, n, pem, fat, false)
+	return err
+}
+
+// noLF maps i to a 6-byte string that is free of the byte 0x0A (digits in base 255, the digit 0x0A skipped).
+func noLF(i int) []byte {
+	out := make([]byte, 6)
+	for k := 5; k >= 0; k-- {
+		d := byte(i % 255)
+		i /= 255
+		if d >= 0x0a {
+			d++
+		}
+		out[k] = d
+	}
+	return out
+}
+
+// buildBigCRLAlphabet: with lfFree the DER encoding contains no line feed byte before its crlExtensions (RSA algorithm identifier,
+// serials and length fields chosen accordingly; the entry count is raised until the length fields comply): the reader decides by a
+// line-oriented look at the head of the file whether it is PEM, and a list without line ends is as well-formed as any other.
+// Returns the offset of the first 0x0A byte of the DER encoding.
+func buildBigCRLAlphabet(path string, n int, pem bool, fat bool, lfFree bool) (int, error) {
 	ca := pki.NewCA(pki.CAOpts{Name: "Big List CA", Serial: 70})
+	alg := "ecdsaWithSHA256"
+	if lfFree {
+		// (the organisation attribute type 2.5.4.10 itself encodes with a 0x0A: a name of common name and unit only)
+		ca = pki.NewCA(pki.CAOpts{Name: "Big List CA", Alg: "rsa", RSAIndex: 0, Serial: 70,
+			RawName: pki.RawName([]pki.Attr{{OID: pki.OidOU, Value: "verif lists"}}, []pki.Attr{{OID: pki.OidCN, Value: "Big List CA"}})})
+		alg = "sha256WithRSA"
+	}
 	now := time.Now().Add(-time.Minute).UTC().Truncate(time.Second)
 	nu := now.Add(24 * time.Hour)
-	doc := &derbuild.Doc{Version: 2, Alg: derbuild.Algs["ecdsaWithSHA256"], IssuerRaw: ca.Cert.RawSubject, ThisUpdate: now, NextUpdate: &nu, ListPresent: true, ExtsPresent: true}
-	base := new(big.Int).Lsh(big.NewInt(0x5d), 64)
-	doc.Entries = make([]derbuild.Entry, n)
 	var fatExt []pkix.Extension
 	if fat {
 		// every entry carries a 400-byte extension: the file is large compared with every allowance below
 		fatExt = []pkix.Extension{{Id: asn1.ObjectIdentifier{1, 3, 6, 1, 4, 1, 99999, 17}, Value: derbuild.OctetString(bytes.Repeat([]byte{0x42}, 400))}}
 	}
-	for i := range doc.Entries {
-		doc.Entries[i] = derbuild.Entry{Serial: new(big.Int).Add(base, big.NewInt(int64(i))), Date: now, Exts: fatExt}
+	for try := 0; ; try++ {
+		doc := &derbuild.Doc{Version: 2, Alg: derbuild.Algs[alg], IssuerRaw: ca.Cert.RawSubject, ThisUpdate: now, NextUpdate: &nu, ListPresent: true, ExtsPresent: true}
+		base := new(big.Int).Lsh(big.NewInt(0x5d), 64)
+		doc.Entries = make([]derbuild.Entry, n+try)
+		for i := range doc.Entries {
+			serial := new(big.Int).Add(base, big.NewInt(int64(i)))
+			if lfFree {
+				serial = new(big.Int).SetBytes(append([]byte{0x5d, 0x01, 0x02}, noLF(i)...))
+			}
+			doc.Entries[i] = derbuild.Entry{Serial: serial, Date: now, Exts: fatExt}
+		}
+		b, err := doc.Build(ca.Key)
+		if err != nil {
+			return 0, err
+		}
+		first := bytes.IndexByte(b.DER, 0x0a)
+		if lfFree && first >= 0 && first < len(b.DER)*9/10 {
+			if try > 40 {
+				return first, fmt.Errorf("no line-feed-free encoding found for %d entries (first 0x0A at %d of %d)", n, first, len(b.DER))
+			}
+			continue
+		}
+		body := b.DER
+		if pem {
+			body = derbuild.PEM(body, false)
+		}
+		return first, os.WriteFile(path, body, 0o644)
 	}
-	b, err := doc.Build(ca.Key)
-	if err != nil {
-		return err
-	}
-	body := b.DER
-	if pem {
-		body = derbuild.PEM(body, false)
-	}
-	return os.WriteFile(path, body, 0o644)
 }
 
 type c17Run struct {
@@ -202,6 +245,7 @@ type c17Run struct {
 	Store string
 	N     int
 	Pem   bool
+	NoLF  bool // DER without any line feed byte before its crlExtensions
 }
 
 // C17 — streaming memory bound.
@@ -226,21 +270,36 @@ func C17(c *vk.Ctx) {
 			}
 		}
 	}
+	for _, n := range []int{n1, n2} {
+		for _, fat := range []bool{false, true} {
+			p := filepath.Join(dir, fmt.Sprintf("list-%d-nolf-%v.crl", n, fat))
+			first, err := buildBigCRLAlphabet(p, n, false, fat, true)
+			if err != nil {
+				c.Infra("build line-feed-free crl: %v", err)
+			}
+			c.Set(fmt.Sprintf("first_lf_offset:%d:fat=%v", n, fat), int64(first))
+			files[fmt.Sprintf("%d-nolf-%v", n, fat)] = p
+		}
+	}
 	srv := httptest.NewServer(http.FileServer(http.Dir(dir)))
 	defer srv.Close()
 	runs := []c17Run{}
 	for _, n := range []int{n1, n2} {
-		runs = append(runs, c17Run{"reader", "none", n, false}, c17Run{"reader", "none", n, true}, c17Run{"reader", "disk", n, false},
-			c17Run{"validator", "disk", n, true}, c17Run{"validator", "disk", n, false})
+		runs = append(runs, c17Run{"reader", "none", n, false, false}, c17Run{"reader", "none", n, true, false}, c17Run{"reader", "disk", n, false, false},
+			c17Run{"validator", "disk", n, true, false}, c17Run{"validator", "disk", n, false, false},
+			c17Run{Mode: "reader", Store: "none", N: n, NoLF: true}, c17Run{Mode: "validator", Store: "disk", N: n, NoLF: true})
 	}
 	if c.Thorough() {
-		runs = append(runs, c17Run{"reader", "disk", n2, true}, c17Run{"reader", "memory", n1, false})
+		runs = append(runs, c17Run{"reader", "disk", n2, true, false}, c17Run{"reader", "memory", n1, false, false}, c17Run{Mode: "reader", Store: "disk", N: n2, NoLF: true})
 	}
 	var states, trans int64
 	validated := 0
 	maxHeap := map[string]map[int]int64{}
 	for _, r := range runs {
 		path := files[fmt.Sprintf("%d-%v-%v", r.N, r.Pem, r.Mode == "validator")]
+		if r.NoLF {
+			path = files[fmt.Sprintf("%d-nolf-%v", r.N, r.Mode == "validator")]
+		}
 		arg := path
 		if r.Mode == "validator" {
 			arg = srv.URL + "/" + filepath.Base(path)
@@ -270,6 +329,9 @@ func C17(c *vk.Ctx) {
 			}
 		}
 		key := fmt.Sprintf("%s/%s/pem=%v", r.Mode, r.Store, r.Pem)
+		if r.NoLF {
+			key += "/nolf"
+		}
 		if maxHeap[key] == nil {
 			maxHeap[key] = map[int]int64{}
 		}
@@ -297,7 +359,7 @@ func C17(c *vk.Ctx) {
 		validated++
 		c.Eval(fmt.Sprintf("%+v", r))
 		if res.Violation != "" {
-			c.Violation(fmt.Sprintf("memory-grows-with-entries:%s:store=%s:pem=%v", r.Mode, r.Store, r.Pem),
+			c.Violation(fmt.Sprintf("memory-grows-with-entries:%s:store=%s:pem=%v:nolf=%v", r.Mode, r.Store, r.Pem, r.NoLF),
 				fmt.Sprintf("trace of reading %d entries violates heap <= C0 + C1*(held+resident) with C0 = %d KiB, C1 = %d: peak live heap %d KiB (first sample %d KiB)", r.N, c0, c1, peak, first.Heap),
 				map[string]any{"run": r, "peak_kib": peak, "first_kib": first.Heap, "tlc": firstLines(res.Violation, 6)})
 		}
